@@ -325,4 +325,3 @@ func (it *stringIter) next() tuple {
 	it.i += n
 	return okv
 }
-
